@@ -71,6 +71,9 @@ def mutants(props):
     rows = []
     for prop in props:
         for patch in sorted(glob.glob(os.path.join(root, 'mutants', prop, '*.patch'))):
+            flt = os.environ.get('VERIF_MUTANT_FILTER')
+            if flt and not any(f in f'{prop}/{os.path.basename(patch)}' for f in flt.split(',')):
+                continue
             scratch = f'/dev/shm/verif-mutant-{os.getpid()}'
             shutil.rmtree(scratch, ignore_errors=True)
             os.makedirs(scratch)
@@ -80,7 +83,7 @@ def mutants(props):
                 rows.append((prop, os.path.basename(patch), 'PATCH-FAILED'))
                 shutil.rmtree(scratch, ignore_errors=True)
                 continue
-            env = dict(os.environ, VERIF_TREE=scratch, VERIF_EVIDENCE_DIR=scratch + '/evidence', VERIF_REPLAY_DIR=scratch + '/replays', VERIF_STOP_FIRST='1', VERIF_NO_SHRINK='1')
+            env = dict(os.environ, VERIF_TREE=scratch, VERIF_EVIDENCE_DIR=scratch + '/evidence', VERIF_REPLAY_DIR=scratch + '/replays', VERIF_STOP_FIRST='1', VERIF_NO_SHRINK='1', VERIF_WALL_SCALE=os.environ.get('VERIF_WALL_SCALE', '3'))
             p = subprocess.run([os.path.join(root, 'verif'), 'check', prop, '--tier', 'quick'], env=env, capture_output=True, text=True)
             caught = f'VIOLATION property={prop}' in p.stdout
             rows.append((prop, os.path.basename(patch), 'caught' if caught else f'MISSED rc={p.returncode}'))
